@@ -79,8 +79,9 @@ type TypeInv struct {
 }
 
 type GlobalInv struct {
-	Pkg    string
-	Clause *Clause
+	Pkg     string
+	Clause  *Clause
+	Checked bool // justified by a static check (unique-field writer scan), not a bare assumption
 }
 
 type Contracts struct {
@@ -91,6 +92,13 @@ type Contracts struct {
 	Lemmas     []*Lemma
 	Files      []string
 	Assumed    []string // human readable list of assumed (trusted) contracts
+	Chains     map[string]string // pkg.Type -> name of the acyclic parent-link field
+	Uniques    []UniqueDecl      // fields holding an object owned by exactly one struct (checked by a writer scan)
+}
+
+type UniqueDecl struct {
+	Pkg, Type, Field string
+	Props            []string
 }
 
 type Lemma struct {
@@ -105,7 +113,7 @@ type Lemma struct {
 var keywords = map[string]bool{
 	"func": true, "spec": true, "requires": true, "ensures": true, "assigns": true, "loop": true,
 	"props": true, "pure": true, "trusted": true, "invariant": true, "global": true, "lemma": true,
-	"at": true, "mode": true, "use": true, "sweep": true, "hyp": true, "concl": true, "package": true, "rec": true,
+	"at": true, "mode": true, "use": true, "chain": true, "unique": true, "sweep": true, "hyp": true, "concl": true, "package": true, "rec": true,
 }
 
 var funcHdr = regexp.MustCompile(`^func\s*(?:\(\s*(?:\w+\s+)?\*?\s*(\w+)\s*\))?\s*([\w$]+)\s*(.*)$`)
@@ -113,7 +121,7 @@ var funcHdr = regexp.MustCompile(`^func\s*(?:\(\s*(?:\w+\s+)?\*?\s*(\w+)\s*\))?\
 // loadContracts reads every zz_contracts_verif.go under the repo plus the
 // assumed contracts under /verif/contracts/assumed.
 func loadContracts(repo string, extraDirs ...string) (*Contracts, error) {
-	cs := &Contracts{Funcs: map[string]*FuncSpec{}, Specs: map[string]*SpecFunc{}, TypeInvs: map[string]*TypeInv{}}
+	cs := &Contracts{Funcs: map[string]*FuncSpec{}, Specs: map[string]*SpecFunc{}, TypeInvs: map[string]*TypeInv{}, Chains: map[string]string{}}
 	var files []string
 	filepath.Walk(filepath.Join(repo, "pkg"), func(p string, info os.FileInfo, err error) error {
 		if err == nil && !info.IsDir() && info.Name() == "zz_contracts_verif.go" {
@@ -268,6 +276,34 @@ func (cs *Contracts) parseFile(path string) error {
 			if cur.Trusted == "" {
 				cur.Trusted = "assumed"
 			}
+		case "chain":
+			// chain Queue.parent : the link field is acyclic (assumption, justified by a writer scan)
+			tf := strings.Split(strings.TrimSpace(rest), ".")
+			if len(tf) != 2 {
+				return fail("chain needs Type.field")
+			}
+			cs.Chains[pkg+"."+tf[0]] = tf[1]
+			cs.Assumed = append(cs.Assumed, "acyclic parent chain "+pkg+"."+rest+" (the link is only written on freshly constructed objects)")
+			cur, curInv, curLemma = nil, nil, nil
+		case "unique":
+			// unique Queue.allocatingAcceptedApps [props C11]: distinct objects never share the map/slice/pointer in this field
+			fs := strings.Fields(rest)
+			tf := strings.Split(fs[0], ".")
+			if len(tf) != 2 {
+				return fail("unique needs Type.field")
+			}
+			ud := UniqueDecl{Pkg: pkg, Type: tf[0], Field: tf[1]}
+			if len(fs) > 2 && fs[1] == "props" {
+				ud.Props = fs[2:]
+			}
+			cs.Uniques = append(cs.Uniques, ud)
+			txt := fmt.Sprintf("forall ua *%s, ub *%s :: ua != ub && ua.%s != nil ==> ua.%s != ub.%s", tf[0], tf[0], tf[1], tf[1], tf[1])
+			e, err := parseExpr(txt)
+			if err != nil {
+				return fail("%v", err)
+			}
+			cs.GlobalInvs = append(cs.GlobalInvs, &GlobalInv{Pkg: pkg, Clause: &Clause{Kind: "global", Text: txt, E: e}, Checked: true})
+			cur, curInv, curLemma = nil, nil, nil
 		case "use":
 			if cur == nil {
 				return fail("use outside func")
